@@ -26,7 +26,9 @@ Record e2ecase := {
   ec_format : format; ec_copier : bool;
   ec_api : frontobs;            (* Program.assemble / assemble_as_patch *)
   ec_cli : frontobs;            (* python -m a816.cli *)
-  ec_symfile : option (list (Z * Z * str))   (* parsed lines of the exported symbol file *)
+  ec_symfile : option (list (Z * Z * str));  (* parsed lines of the exported symbol file *)
+  ec_labeldefs : option (list (Z * Z * str)) (* label definitions observed while labels were resolved (Scope.add_label
+                                                calls outside loop-iteration scopes), as (bank, offset, name), by scope *)
 }.
 
 Definition model_result (t : live) (c : e2ecase) : aresult :=
@@ -172,7 +174,8 @@ Definition c12_ok (c : e2ecase) : bool :=
       match ec_symfile c with
       | Some lines =>
           list_eqb sym_eqb lines
-            (map (fun nv => ((snd nv / 65536) mod 256, snd nv mod 65536, fst nv)) (snd mem))
+            (map (fun nv => ((snd nv / 65536) mod 256, snd nv mod 65536, fst nv)) (snd mem)) &&
+          match ec_labeldefs c with Some defs => list_eqb sym_eqb lines defs | None => true end
       | None => true
       end
   | _ => true
